@@ -40,6 +40,7 @@ func allProps() []*PropSpec {
 		propC10(),
 		propC09(),
 		propC03(),
+		propC04(),
 	}
 }
 
@@ -289,6 +290,36 @@ func propC03() *PropSpec {
 			js = append(js, jobsN("html", "VerifHTMLText", pick(rng(1, 2), rng(1, 2)), "T1<X>T2</X>T3 for 13 element kinds, KeepWhitespace/KeepEndTags symbolic: rendered word sequence")...)
 			js = append(js, jobsN("html", "VerifHTMLPre", pick(rng(0, 3), rng(0, 5)), "pre/textarea content untouched")...)
 			js = append(js, Job{Pkg: "html", Fn: "VerifHTMLTwin", N: 0, ExpectFail: true, Desc: "vacuity twin"})
+			return js
+		},
+	}
+}
+
+func propC04() *PropSpec {
+	return &PropSpec{
+		ID:   "C04",
+		Rule: "one case = one feasible path of css.Minify (real parse/v2/css lexer+parser, minifyGrammar/Declaration/Tokens/Property, Number/Decimal, colour tables) on a declaration template a{prop:VALUE} with symbolic value bytes / symbolic token choices + reference value semantics (CSS Color 4, Values 4, Backgrounds 3, Flexbox 1); non-trivial = completes with a distinct symbolic output",
+		Assumptions: []string{"templates a{prop:VALUE}; VALUE = hex digits / number lexeme bytes (symbolic bytes) or 1-4 tokens chosen symbolically from the lists in harness/css/values.go", "colour keyword reference = SVG 1.1/CSS named colours from golang.org/x/image/colornames + rebeccapurple", "colour functions: arguments from grids, float arithmetic runs concretely; tolerance one 8-bit unit", "fully transparent colours compare equal regardless of their channels"},
+		Outside:     []string{"selectors, at-rule preludes, nested at-rules, parse-error pass-through", "font, background (other than -position), box-shadow, text-*, unicode-range, url()/string rewrites: not yet covered by a reference oracle", "values longer than four tokens; float-valued colour arguments beyond the grids; Precision > 0"},
+		Stubs:       []string{"fmt native on concrete args", "math.* natively on concrete floats"},
+		Jobs: func(tier string) []Job {
+			var js []Job
+			q := tier == "quick"
+			pick := func(a, b []int) []int {
+				if q {
+					return a
+				}
+				return b
+			}
+			js = append(js, jobsN("css", "VerifCSSHexColor", pick([]int{3, 4, 6}, []int{3, 4, 6, 8}), "prop:#<n symbolic hex digits>, 6 colour properties")...)
+			js = append(js, jobsN("css", "VerifCSSColorName", []int{0}, "every CSS colour keyword x 3 spellings x 6 properties")...)
+			js = append(js, jobsN("css", "VerifCSSNotAColor", pick(rng(3, 3), rng(3, 4)), "identifiers of n symbolic letters that are not colour keywords pass through")...)
+			js = append(js, jobsN("css", "VerifCSSColorFunc", []int{0}, "hsl()/hsla()/rgb()/rgba() on argument grids")...)
+			js = append(js, jobsN("css", "VerifCSSNumber", pick(rng(1, 4), rng(1, 5)), "number lexeme of n symbolic bytes x 9 units x 4 properties x KeepCSS2")...)
+			js = append(js, jobsN("css", "VerifCSSBox", rng(1, 4), "margin/padding/border-width/inset with n values")...)
+			js = append(js, jobsN("css", "VerifCSSBgPos", rng(1, 4), "background-position with n tokens")...)
+			js = append(js, jobsN("css", "VerifCSSFlex", rng(1, 3), "flex with n tokens")...)
+			js = append(js, Job{Pkg: "css", Fn: "VerifCSSTwin", N: 0, ExpectFail: true, Desc: "vacuity twin"})
 			return js
 		},
 	}
